@@ -42,6 +42,8 @@ class C04(Prop):
             yield Case('cmp', (a, b))
         for c in self._sites(rng, tier):
             yield c
+        for c in self._join_sites(rng, tier):
+            yield c
 
     # ---- "sort, issorted, the selectors and the merge joins use this ordering": a sample of their own checks ------------------
     def _sites(self, rng, tier):
@@ -68,6 +70,25 @@ class C04(Prop):
                 seen[kind] += 1
                 yield c
 
+    def _join_sites(self, rng, tier):
+        import random as _r
+        from . import c06 as _c06
+        self._c06 = getattr(self, '_c06', None) or _c06.PROP()
+        lim = 80 if tier == 'quick' else 800
+        n = 0
+        # key cells that are lists / tuples / mixed on either side: partners are found by the C04 equivalence
+        l = (('id', 'a'), ([1], 'x'), ((1,), 'y'), ([2, None], 'z'), (None, 'w'), ('s', 'v'))
+        r = (('id', 'b'), ((1,), 'p'), ([1], 'q'), ([2, None], 'r'), ('s', 't'), (None, 'u'))
+        for kn in _c06.KINDS:
+            for a, b in ((l, r), (r, l)):
+                yield Case('join', (kn, 'id', None, None, False, None, None, None, None, a, b))
+        for c in self._c06.cases(_r.Random(rng.randrange(1 << 30)), 'quick'):
+            if c.op == 'join':
+                yield c
+                n += 1
+                if n >= lim:
+                    break
+
     def _near(self, rng, a):
         """A value likely to be equal/adjacent to a."""
         if isinstance(a, (tuple, list)):
@@ -88,6 +109,10 @@ class C04(Prop):
         if case.op in ('sort', 'issorted', 'sort_spec'):
             self._c05 = getattr(self, '_c05', None) or _c05.PROP()
             return self._c05
+        if case.op in ('join', 'join_spec'):
+            from . import c06 as _c06
+            self._c06 = getattr(self, '_c06', None) or _c06.PROP()
+            return self._c06
         return None
 
     def spec_case(self, case, impl_obs):
